@@ -31,7 +31,7 @@ class POMDPPolicy(ABC):
                max_steps=int(2 ** 30),
                rng=random):
         if initial_state is None:
-            initial_state = pomdp.initial_state_dist().sample()
+            initial_state = pomdp.initial_state_dist().sample(rng=rng)
         if initial_agentstate is None:
             initial_agentstate = self.initial_agentstate()
 
